@@ -34,6 +34,7 @@ var properties = map[string][]harnessSpec{
 	},
 	"C01": {
 		{Name: "chord.VerifC16LookupHistory", Quick: map[string]int{"C16.history": 2}, Thorough: map[string]int{"C16.history": 3}, Marks: end},
+		{Name: "play.VerifC01ApplyHistory", Marks: end},
 		{Name: "cmd.VerifC01FlagOverride", Marks: end},
 		{Name: "play.VerifC01WriteSequence", Quick: map[string]int{"C01.maxInstances": 2}, Thorough: map[string]int{"C01.maxInstances": 3}, Marks: end},
 		{Name: "play.VerifC01Pitch", Quick: map[string]int{"C01.mode": 1, "C01.maxDegree": 15}, Thorough: map[string]int{"C01.mode": 0, "C01.maxDegree": 15}, Marks: []string{"end", "rejected"}},
@@ -60,6 +61,7 @@ var properties = map[string][]harnessSpec{
 	},
 	"C03": {
 		{Name: "astconv.VerifC03Syllable", Quick: map[string]int{"C03.bass": 1}, Thorough: map[string]int{"C03.bass": 1}, Marks: []string{"end", "end-with-bass", "rejected"}},
+		{Name: "astconv.VerifC03History", Marks: []string{"end", "rejected"}},
 		// "every supported key" includes the key in force after a {key=…} change, on a chord or a rest
 		{Name: "astconv.VerifC05KeyChange", Marks: []string{"end", "carrier-rejected"}},
 	},
